@@ -630,6 +630,23 @@ def r9_inferred_types_are_own(repo, rule="C03-R9"):
                           "the type of an inferred type node must derive from the visited node, a declaration or the "
                           "builtin factory; it reads analysis state: %s (all sources: %s)"
                           % (bad, [src(l) if isinstance(l, ast.AST) else l for l in leaves][:5])))
+    # an inferred edge from a type variable to the *bound* of its parameter is evidence only when the bound mentions
+    # other type variables (class A<T1, T2 : T1>): a ground bound gives the compiler nothing to infer the argument from
+    m = cls.methods.get("_handle_type_constructor_instantiation")
+    if m is not None:
+        sites = []
+        for fn_ in [m] + [x for x in cls.methods.values() if x is not m and x.qualname not in (m.qualname,)]:
+            for c in calls_in(fn_.node):
+                if call_name(c) == "construct_edge" and len(c.args) >= 4 and src(c.args[3]).endswith("INFERRED") and \
+                        isinstance(c.args[2], ast.Call) and call_name(c.args[2]) == "TypeNode" and c.args[2].args and \
+                        src(c.args[2].args[0]).endswith("bound") and fn_ is m:
+                    sites.append((fn_, c))
+        for fn_, c in sites:
+            b = " ".join(src(c.args[2].args[0]).split())
+            gs = [(" ".join(src(t).split()), p) for t, p in flat_guards(c)]
+            okg = (b + ".has_type_variables()", True) in gs
+            obs.append(Ob(rule, "%s:bound-edge-only-for-bounds-with-type-variables" % fn_.name, _w(fn_, c), okg,
+                          "`%s` must be guarded by `%s.has_type_variables()`; guards %s" % (src(c)[:70], b, gs)))
     return obs
 
 
